@@ -1,6 +1,6 @@
 (* C30 — proofs: C14's theorems instantiated with the row merger. *)
 From Coq Require Import NArith List Bool Lia.
-From Dolt Require Import C14.Model C14.Spec C14.Proofs C30.Model C30.Spec.
+From Dolt Require Import C14.Model C14.Spec C14.Corr C14.Proofs C30.Model C30.Spec C30.Corr.
 Import ListNotations.
 Local Open Scope N_scope.
 
@@ -77,4 +77,68 @@ Proof.
   pose proof (stats_conflicts_equal collide base left right Hb Hl Hr) as Hc.
   fold ld rd in Hc. destruct (stats_slow collide ld rd) as [[[a d] m] c] eqn:E.
   cbn [fst] in H. injection H as -> -> ->. unfold stats_fast in *. cbn [snd] in Hc. rewrite Hc. reflexivity.
+Qed.
+
+(* ------------------------------------------------------------------------- *)
+(* The oracle (the executable statement of the property) on the model's own
+   observation.  FULL STATEMENT: forall i, sorted ... -> oracle i (model_obs i) = true.
+   It is false ([oracle_on_model_refuted]) because of the statistics (known
+   finding).  Proved: the rows-and-conflicts part of the oracle holds for every
+   input, and the whole oracle holds whenever MaybeShortCircuit applies or the row
+   path counts no adds / deletes / modifications. *)
+Lemma list_eqb_refl : forall A (e : A -> A -> bool), (forall x, e x x = true) -> forall l, list_eqb e l l = true.
+Proof. intros A e He l; induction l as [|x l IH]; cbn [list_eqb]; [reflexivity|]. rewrite He, IH. reflexivity. Qed.
+
+Lemma triple_eqb_refl : forall t, triple_eqb t t = true.
+Proof. intros [[b l] r]. cbn [triple_eqb]. rewrite !opt_eqb_refl. reflexivity. Qed.
+
+Lemma entry_eqb_refl : forall A (e : A -> A -> bool), (forall x, e x x = true) -> forall x, entry_eqb e x x = true.
+Proof. intros A e He [k v]. unfold entry_eqb. cbn [fst snd]. rewrite N.eqb_refl, He. reflexivity. Qed.
+
+Lemma stats_eqb_refl : forall s, stats_eqb s s = true.
+Proof. intros [[[a b] c] d]. cbn [stats_eqb]. rewrite !N.eqb_refl. reflexivity. Qed.
+
+Lemma rows_conf_eqb_of_eq : forall a b,
+  t_rows a = t_rows b -> t_conf a = t_conf b -> rows_conf_eqb a b = true.
+Proof.
+  intros a b Hr Hc. unfold rows_conf_eqb. rewrite Hr, Hc.
+  rewrite (list_eqb_refl _ (entry_eqb N.eqb)) by (intro x; apply entry_eqb_refl; apply N.eqb_refl).
+  rewrite (list_eqb_refl _ (entry_eqb triple_eqb)) by (intro x; apply entry_eqb_refl; apply triple_eqb_refl).
+  reflexivity.
+Qed.
+
+Theorem oracle_on_model_partial : forall i,
+  sorted (i_base i) -> sorted (i_left i) -> sorted (i_right i) ->
+  let o := model_obs i in
+  let ld := diff (i_base i) (i_left i) in
+  let rd := diff (i_base i) (i_right i) in
+  rows_conf_eqb (o_fast o) (o_chk o) = true /\
+  rows_conf_eqb (o_fast o) (o_idx o) = true /\
+  (short_circuit (i_base i) (i_left i) (i_right i) <> None \/ fst (stats_slow merge_row ld rd) = (0, 0, 0) ->
+   oracle i o = true).
+Proof.
+  intros i Hb Hl Hr o ld rd. subst o. unfold model_obs, oracle.
+  destruct (short_circuit (i_base i) (i_left i) (i_right i)) as [[rows st]|] eqn:Es.
+  - cbn [o_fast o_chk o_idx]. unfold tobs_eqb.
+    rewrite rows_conf_eqb_of_eq by reflexivity. rewrite stats_eqb_refl. repeat split; reflexivity.
+  - cbn [o_fast o_chk o_idx].
+    assert (Hrc : rows_conf_eqb
+      {| t_rows := merge_by_patches merge_row (i_base i) (i_left i) (i_right i);
+         t_conf := fast_conflicts merge_row (diff (i_base i) (i_left i)) (diff (i_base i) (i_right i));
+         t_stats := stats_fast merge_row (diff (i_base i) (i_left i)) (diff (i_base i) (i_right i)) |}
+      {| t_rows := merge_by_differ merge_row (i_base i) (i_left i) (i_right i);
+         t_conf := slow_conflicts merge_row (diff (i_base i) (i_left i)) (diff (i_base i) (i_right i));
+         t_stats := stats_slow merge_row (diff (i_base i) (i_left i)) (diff (i_base i) (i_right i)) |} = true).
+    { apply rows_conf_eqb_of_eq; cbn [t_rows t_conf]; [apply rows_equal|apply conflicts_equal]; assumption. }
+    split; [exact Hrc|]. split; [exact Hrc|].
+    intros [H|H]; [congruence|].
+    unfold tobs_eqb. rewrite Hrc. cbn [t_stats andb].
+    rewrite (stats_equal_partial merge_row _ _ _ Hb Hl Hr H), stats_eqb_refl. reflexivity.
+Qed.
+
+Theorem oracle_on_model_refuted :
+  exists i, sorted (i_base i) /\ sorted (i_left i) /\ sorted (i_right i) /\ oracle i (model_obs i) = false.
+Proof.
+  exists {| i_base := []; i_left := [(1, 1001)]; i_right := [(2, 1001)] |}.
+  repeat split; try exact Logic.I; try constructor. 
 Qed.
